@@ -66,6 +66,11 @@ impl Field for Ed448ScalarField {
     }
 
     fn deserialize(buf: &Self::Serialization) -> Result<Self::Scalar, FieldError> {
+        // The group order has 446 bits, so the last byte of a canonical encoding
+        // is always zero; `from_canonical_bytes()` does not check it.
+        if buf[56] != 0 {
+            return Err(FieldError::MalformedScalar);
+        }
         match EdwardsScalar::from_canonical_bytes(buf.into()).into() {
             Some(s) => Ok(s),
             None => Err(FieldError::MalformedScalar),
